@@ -17,7 +17,9 @@ func WatStrip(path string, src []byte) (watBytes []byte, err error) {
 
 	// 删除未使用对象
 	pass := new_RemoveUnusedPass(m)
-	m = pass.DoPass()
+	if !pass.hasIndexRefs() {
+		m = pass.DoPass()
+	}
 
 	var buf bytes.Buffer
 	if err := printer.Fprint(&buf, m); err != nil {
